@@ -77,3 +77,137 @@ CLAIMED['C04'] = {
             '(mkdtemp/chdir failing) is outside the statement (no step ended the execution) and outside the model.',
     'technique': CORR,
 }
+TAB = 'Coq theorem over hand-written Gallina model + tables regenerated from the running code (vm_compute obligations) + differential correspondence'
+CLAIMED['C05'] = {
+    'text': 'proof: for all texts, all matcher / transformer expressions and all sources, the Gallina model of the anchored string-matcher / '
+            'string-transformer code (four equals strategies, three strip_space streaming loops, replace with -at and -preserve-new-lines, quantifiers, '
+            '&&/|| freezing, filter via C13) computes the whole-text meaning given in the reference manual (9 theorems closed under the global context: '
+            'C05_matcher_correct, C05_transformer_correct, C05_equals_all_strategies, C05_replace_resplits_lines, C05_mem_buff_irrelevant, ...); Python re, '
+            'str.upper/lower, str.isspace are universally quantified oracles with two stated library assumptions. Tie: ~3500 differential cases per quick run '
+            '(real parsers + primitives in process on file and literal sources, and whole cases through MainProgram).',
+    'note': 'The Python code is modelled by hand (coq/Model/TextOps.v), not verified. Trusted: Coq kernel + vm_compute, the model, the harness (generator, renderer to '
+            'concrete syntax, oracle tables computed with the real Python library, opaque-constant miss detection), Python re / case mapping / isspace. Texts with '
+            'line boundaries other than \\n are excluded (they are C14 known findings). n-ary && / || / | are modelled as nested binary nodes.',
+    'technique': 'Coq: executable model + declarative spec, mutual structural induction over four syntactic classes, accumulator invariants for the streaming '
+                 'algorithms; differential correspondence by vm_compute with per-case oracle tables',
+}
+CLAIMED['C06'] = {
+    'text': 'proof: theorems over a hand-written model of the expression parser (_Parser with its new_line_ignore modes) and the combinators: completeness (every '
+            'permitted rendering of every tree, with redundant parentheses and permitted line breaks, parses to that tree modulo flatten, any number of precedence '
+            'levels, full and simple parser), soundness and totality, unambiguity, precedence, lazy left-to-right evaluation, left-to-right composition of |; the '
+            'pre-fix parser (operator accepted as closing parenthesis) is refuted by witness; operator and truth tables of the six host types regenerated from the '
+            'live Grammar objects on every run. 12 theorems closed under the global context. Tie: ~5000 cases per quick run (permitted, arbitrary-layout and '
+            'malformed streams for six host types, 13 nested contexts, 272 end-to-end cases; each parsed object evaluated 1-3 times).',
+    'note': 'Modelled, not verified: _Parser (expression/parser.py), the TokenParser primitives it calls, Negation/Conjunction/Disjunction.matches_w_trace, '
+            'SequenceStringTransformer.transform. Token level: a primitive with its arguments is one word; tokenisation is C09. The set of permitted line breaks is '
+            'fixed in DESIGN section 6 (the manual defines none); that the breaks of an accepted input are exactly the permitted ones is checked by correspondence, not '
+            'proved. Leaves are oracles. Trusted: Coq kernel + vm_compute, harness/c06.py.',
+    'technique': TAB,
+}
+CLAIMED['C09'] = {
+    'text': 'proof (partial: list elements proved for tokens without embedded new-lines and without a stopping parenthesis; substitution proved for uniformly quoted '
+            'tokens - mixed quoting is refuted, open known finding KF-C09-1; the line number of a syntax-error report is tested end to end, not proved): theorems over a '
+            'model of shlex.read_token as configured, TokenStream, symbol_syntax.split, parse_string, the rich-string / here-document parser and the list loop: token '
+            'boundaries, unterminated quote is an error, consume is total (no IndexError), split is THE leftmost decomposition, here-document body exact, unterminated '
+            'here-document is an error. 12 theorems closed under the global context; two refuted-by-witness (mixed quotes; the pre-fix exotic-space word).',
+    'note': 'Model tied to the running code by ~8000 (quick) / 80000 (thorough) generated sources incl. end-to-end `file f = ...` runs, and by tables regenerated from the '
+            'running interpreter (white-space set over all code points, reserved tokens, delimiters). str.isalnum is an oracle. The Python text is modelled, not verified. '
+            'The predicate accepts two readings of "substituted except inside hard quotes" that differ only for a reference written across a fragment boundary.',
+    'technique': TAB,
+}
+CLAIMED['C11'] = {
+    'text': 'proof: refinement of a two-plain-maps specification by the model of the environ/timeout/cd bookkeeping (None = inherit, populate on first modification, act '
+            'applier only in [setup], act settings captured after setup/main, the _expand_vars scanning loop) for ALL histories (C11_refines), expansion = the declarative '
+            'left-to-right substitution for all strings, no backward effect (pointwise and trace form), act process sees the act set and others the non-act set, timeout '
+            'and cd persist forward incl. into cleanup after a failure; `env -of act` outside [setup] proved unobservable. 15 theorems closed under the global context. '
+            'Tie: ~1200 histories with real probe processes + 4000 direct _expand_vars cases per quick run.',
+    'note': 'Modelled, not verified: environ/impl.py appliers + _expand_vars (regex modelled), InstructionSettings / SetupSettingsBuilder, timeout, cd, executor per-instruction '
+            'environment and act capture, phase order with halting. Trusted: the hand model, harness/c11.py, dash/env/pwd as probes. Timeout observed as the value handed to the '
+            'command executor (real expiry: C19). Child-cd isolation is an OS fact, observed only. Values are constant strings; program-valued env values (run with the set '
+            'being changed, as documented) are outside the quantifier.',
+    'technique': CORR + ' (real test cases, probe processes, recording CommandExecutor passed through public constructors)',
+}
+CLAIMED['C12'] = {
+    'text': 'proof (partial: "resolves to the root joined with its suffix" and "only act/tmp/cd for a destination" are proved under the guard that no PATH-STRING joined to a '
+            'root is absolute; without the guard they are refuted by witness - open known finding KF-C12-1, recorded in doc/BUGS.rst): option outside the accepted set is a '
+            'syntax error for every configuration; validation accepts only well-formed tables and never crashes; a destination reached through a path-symbol chain of any '
+            'length ending in home/act-home/result/absolute is rejected; -rel-cd is resolved at use; end-to-end theorem from argument syntax to the documented meaning. '
+            '15 theorems closed under the global context + 3 regenerated-table obligations.',
+    'note': 'Hand-written model of parse_path / parse_relativity / path ddvs+sdvs / reference restrictions / symbol_validation / relativity_root with pathlib join semantics; '
+            'tied to the code on every run by tables regenerated from 13 live configuration objects, resolvers and instruction parsers, and by ~11000 differential cases at '
+            'parser, instruction (every phase) and program level (home-directory snapshots). Tokenisation and symbol-reference splitting are outside the model; file-system '
+            'effects are observed, not modelled.',
+    'technique': TAB,
+}
+CLAIMED['C14'] = {
+    'text': 'proof (partial: all clauses hold under the guard that no text contains a str.splitlines boundary other than LF (no CR, VT, FF, FS, GS, RS, NEL, LS, PS); without '
+            'the guard they are refuted by machine-checked witnesses = open known findings KF-C14-1, KF-C14-2): for every source tree (literal, file, program output, line '
+            'transformers, filter, run, two-part concat), every mem_buff_size and every access sequence before and after freezing, every view shows the denoted text; verdicts '
+            'depend only on the text; M, ( M && M ), ( M || M ) and identity-wrapped M agree; equals agrees over all 3x3 source kinds; the spool keeps the text for every '
+            'buffer size (UTF-8 byte level, round trip proved); pre-fix spool and pre-fix concat refuted. 13 theorems closed under the global context.',
+    'note': 'Hand-written state-passing interpreter of 14 anchored modules; line transformers and external programs are abstract functions with an admissibility hypothesis '
+            '(instances proved for identity, filter, ASCII upper-case, cat, tr, tail). Tie: ~3300 (quick) / 40000 (thorough) differential cases incl. the deviating inputs, '
+            'through the real parsers with chosen mem_buff_size. Outside the model: n-ary concat beyond two parts, program -stdin, stderr sources, texts larger than the 8 KiB io '
+            'buffers. Trusted: Coq kernel + vm_compute, the model, the harness, CPython io/str semantics as modelled.',
+    'technique': 'Coq theorem over hand model (state-passing interpreter of string-source objects, induction over source tree and access sequence) + differential correspondence',
+}
+CLAIMED['C17'] = {
+    'text': 'proof (partial: independence is proved for the modelled shared state - environment dictionary, predefined symbols, timeout, os.environ, cwd, sandbox; absence of '
+            'OTHER process-global state in exactly_lib is checked by differential runs only): merge order (suite first, case first in cleanup) composed with the C01 schedule; '
+            'standalone (--suite / beside exactly.suite) = in-suite handling; contents not inherited by sub-suites; a case changes no object that existed before it for every '
+            'copy policy with a copy on each path, and every policy lacking a copy leaks (all 128 policies); world restored; a case behaves as if alone (refinement to a '
+            'store-free reference semantics). 13 theorems closed under the global context.',
+    'note': 'First-order store model of processors.py/_exe_conf_that_may_be_updated, executor.py copies, execution.py preserved_cwd/rmtree, suite_file_reading.py, '
+            'accessor_resolver.py; modelled, not verified; tie = three differential experiments per run (real suites run three ways; real histories in every order vs '
+            'fresh-process baselines; stub instructions mutating every handle through the public executor).',
+    'technique': 'Coq theorems over a first-order store model (aliasing) + refinement to a store-free reference semantics + composition with the C01 schedule; differential correspondence',
+}
+CLAIMED['C19'] = {
+    'text': 'proof (partial: termination of the OS process tree and wall-clock time are observed by real runs, not proved; bounds are in model time): the timeout handed to '
+            'every process start site is the value of the last timeout instruction whose main ran before it, else the default; `none` lifts it from that point on only; the '
+            'model is proved to simulate the C01 executor, so cleanup and sandbox removal after an expiry are corollaries of C01/C04; at most |cleanup| further steps run after '
+            'an expiry; regenerated site table: every process start site is known and passes a timeout. 9 theorems closed under the global context. Open known finding KF-C19-1 '
+            '(a command forked by the shell of a `$` site survives the kill).',
+    'note': 'Model/Timeout.v = Exec.partial_execute with InstructionSettings.timeout threaded through; subprocess.call(timeout=) contract is the explicit function `expires`. Tie: '
+            'ast scan of every process start site under src/exactly_lib (fail-closed), in-process observation of the timeout reaching Popen.wait for every site kind through '
+            'MainProgram (wrapper in the harness process only), real runs with sleeping / SIGTERM-ignoring children (3 sites quick, 49 thorough). The suite preprocessor '
+            '(subprocess.call without timeout, before any test case exists) is out of the statement\'s scope and listed.',
+    'technique': TAB,
+}
+CLAIMED['C20'] = {
+    'text': 'proof: general theorems over the model (one name/constructor list => help list = accepted names under name-faithfulness; value_lookup; the help argument parser '
+            'reaches every documented entry; HTML anchors injective) + finite theorems decided by the Coq kernel over an inventory regenerated from the live program on every '
+            'run (accepted = documented per phase, suite section and entity type; every enumerated help request exits 0 with output; every internal href has exactly one target). '
+            '16 theorems closed under the global context. Honest label: the finite theorems are kernel-decided checks over regenerated data; their bound is the inventory.',
+    'note': 'Trusted: the inventory generator in harness/c20.py (drives the real program in process; "not accepted" = answered exactly like an invented name and, for '
+            'instructions, UnknownInstructionException; rendered-table and HTML attribute extraction each cross-checked by a second path). Modelled, not verified: '
+            'instruction_setup.py, the help contents structure, value_lookup.py, argument_parsing.py, cross_ref_target_renderer.py. Concepts and syntax elements have no parser: '
+            '"accepted" means registered in definitions.entity.*.',
+    'technique': TAB,
+}
+CLAIMED['C15'] = {
+    'text': 'proof: populate of a FILE-LIST = its compositional denotation, in order, confined under the target (guard: no symbolic link to a directory on a written path), '
+            'a clash is HARD_ERROR with the tree unchanged; the recursive files generator (queue, min/max depth, prune, links followed) yields a Permutation of the declarative '
+            'set for EVERY listing order and never runs out of fuel; every modelled files-matcher / file-matcher gives the declarative verdict for every listing order whenever '
+            'that verdict is defined; selection = conjunction, prune = disjunction, they commute; populate-then-`matches -full` of the typed listing holds. 17 theorems closed '
+            'under the global context.',
+    'note': 'Hand-written model of file_list / file_makers / copy_dir_contents / files_matcher.models / matches_* / quantifiers / files_condition / file_type / dir_contents, tied '
+            'to the code by ~3700 (quick) / 36000 (thorough) complete in-process cases on real trees with symlinks. Oracles: scandir (any permutation), fnmatch / PurePath.match '
+            '(tables). Symlink cycles are outside the tree type; the matcher theorem is conditional on the manual\'s semantics being defined (no consulted file of a HARD_ERROR '
+            'type: then order-dependence is real). Not modelled: regex name patterns, `run` matcher, text matchers beyond is-empty/equals.',
+    'technique': 'Coq proofs over an executable model (nested induction over trees and FILE-LISTs, frame lemmas, BFS-vs-DFS up to Permutation, mutual induction over the matcher '
+                 'syntaxes) + differential correspondence by vm_compute',
+}
+CLAIMED['C10'] = {
+    'text': 'proof (partial: delivery of argv/stdin/cwd to the OS process and process behaviour are the operating system - observed with probe processes, not proved): '
+            'program resolution = a declarative denotation on every well-formed symbol table and never out of fuel; arguments, stdin parts and transformations accumulate in '
+            'definition order for chains of ANY length; the process of a chain gets the denoted executable, stdin (program parts then [setup] stdin, in denoted order) and cwd; a '
+            'shell command is one verbatim string, everything else an argv vector; list and string symbols splice; the exit-code decision for every code and phase; act outcome = '
+            'what exit-code/stdout/stderr see; the file, source and null actors; whole-case refinement run_case = spec_run_case. 22 theorems closed under the global context; the '
+            'pre-fix stdin order is refuted by witness.',
+    'note': 'Model/Prog.v mirrors accumulated_components, program_symbol_sdv, command_program_sdv, list/string resolution, _CommandTranslator, actors, text-source programs, '
+            'result_to_sh/pfh, _register_outcome; modelled, not verified. Oracle: outcome of the k-th started process as reported by the probe. Tie: ~960 real cases per quick run '
+            '(12500 thorough, all 256 exit codes) whose programs are probes (recording process executor + child-side reports of argv/stdin/cwd). Out of scope by construction: '
+            'path resolution (C12), string syntax (C09), transformer semantics (C05), env/timeout (C11/C19). The refinement theorem is for cases whose definitions are already made.',
+    'technique': CORR + ' (probe programs; recording ProcessExecutor)',
+}
